@@ -41,6 +41,19 @@ CHECKS = {
  "C14": dict(cat="exploration", technique="exhaustive over (union occurrence, alternative, use site) with Hypothesis-generated shapes; C03 predicate as oracle",
    text="Every union occurrence of lsp.json is pinned to each alternative at every use site inside a generated valid root, in minimal/maximal/random shapes; structuring must not raise and must yield an alternative the value is valid for.",
    note="partialResult/errorData unions have no typed surface in the package and are listed as unreachable in the evidence", ref="3/C14"),
+
+ "C05": dict(cat="exploration", technique="exhaustive differential: fresh generator output vs committed files, statement/item aligned, under generated hash seeds",
+   text="The python and rust plugins are run from the working tree under Hypothesis-drawn PYTHONHASHSEEDs; all 795 statements of types.py (AST modulo docstring whitespace) and all items of lib.rs (byte-identical after rustfmt) are compared both ways with the committed files. Complete for the finite domain.",
+   note="rustfmt --edition 2021 stands for the build's formatter; no ruff offline, so Python is compared as AST with docstrings line-stripped", ref="3/C05"),
+ "C07": dict(cat="exploration", technique="exhaustive enumeration of emitted Rust items against an independent mapping (text analyser, fail-closed)",
+   text="Every item of the lib.rs emitted from the working tree (and of the committed copy) is parsed and compared with an independent re-statement of the mapping: field-name sets under serde's rename rule, type trees, Option wrapping, enum discriminants incl. the hand-written impls, untagged aliases, message structs, method enums, feature gates; both directions.",
+   note="declarations only - serde runtime behaviour is not exercised (no crates offline)", ref="3/C07"),
+ "C08": dict(cat="exploration", technique="exhaustive enumeration of emitted C# files against an independent mapping (text analyser, fail-closed)",
+   text="Every .cs file the dotnet plugin writes from the working tree is parsed; DataMember sets, type trees, nullability, NullValueHandling, constructor assignment, enum values and the per-method metadata table (LSPRequest/LSPResponse pairing, LSPMethods constants, Direction) are compared with lsp.json.",
+   note="declarations only (no .NET SDK); value-type collections judged on constructor defaults", ref="3/C08"),
+ "C17": dict(cat="exploration", technique="exhaustive over all emitted vectors against an independent strict validator + converter acceptance",
+   text="All vectors written by a real CLI run of the testdata plugin are named/hashed correctly, labelled exactly as an independent strict metamodel validator decides, every message class has a True vector and every True vector is accepted by the Python converter.",
+   note="validator's lenient choices (open empty objects, result+error, null params only when undeclared) are stated in the evidence", ref="3/C17"),
 }
 
 def main():
